@@ -226,7 +226,11 @@ func (c *connection) sendWaitReply(callerCtx context.Context, msg Message) (Mess
 	var ch chan replyResult
 	if !fireAndForget {
 		key := msg.SystemBytes()
-		ch = e.replies.register(key)
+		kind := waiterControl
+		if isData {
+			kind = waiterData
+		}
+		ch = e.replies.registerKind(key, kind)
 		defer e.replies.deregister(key)
 	}
 
